@@ -74,7 +74,8 @@ def confirm(sc: Scratch, prep: dict, r: HarnessResult, log_dir: Path) -> dict:
     # 1. ask Kani for the concrete values as a unit test
     r2 = core.run_kani(pkg, prep["target_dir"], r.spec, log_dir, prep.get("kani_args"), playback="print")
     text = Path(r2.log_path).read_text(errors="replace")
-    test = core.extract_playback_test(text)
+    tests = [t for t in re.findall(r"Concrete playback unit test for `[^`]+`:\n```\n(.*?)```", text, re.S) if "Check for `cover`" not in t]
+    test = tests[0] if tests else None
     role = f"{r.spec.name}: " + "; ".join(sorted({c["description"] for c in r.failed}))
     if not test:
         return {"reproduced": None, "role": role, "detail": "Kani produced no concrete playback test"}
